@@ -251,11 +251,13 @@ def C07(ctx):
             o2 = one(c, n)
             if o2[0] == chk[0]:
                 ctx.fail("single edit does not change the check's first symbol", strand=s, edit=list(e), check=chk, check2=o2)
-            key = "dec %s - %d %s %d 0 %s" % (g.token(), v, tok(c), 2 * len(c), chk)
-            d = ctx.corr(key)
-            if d != "err ValueError":
-                ctx.fail("decode with the original check accepts a single-edit neighbour", line=key, observed=d)
-            ctx.case(key, True, "edit-" + e[0])
+            for fast in (0, 1):
+                key = "dec %s - %d %s %d %d %s" % (g.token(), v, tok(c), 2 * len(c), fast, chk)
+                d = ctx.corr(key)
+                if d != "err ValueError":
+                    ctx.fail("decode with the original check accepts a single-edit neighbour"
+                             + (" (fast mode)" if fast else ""), line=key, observed=d)
+                ctx.case(key, True, "edit-" + e[0], "fast" if fast else "normal")
         for x in "CGT":                       # insertion at the very end
             c = s + x
             o2 = one(c, n)
@@ -679,7 +681,9 @@ def C10(ctx):
         vs = g.vertices() or [0]
         v = rng.choice(vs + [rng.randrange(g.n)])
         n = rng.choice([k, k + 1, 2 * k, 3 * k + 1, 12, 25, 60, 200 if ctx.thorough else 40])
-        kind = rng.choice(["bad-first", "last-window", "random", "edited", "edited"])
+        kind = rng.choice(["bad-first", "last-window", "random", "edited", "edited", "dense"])
+        if kind == "dense":
+            n = rng.choice([120, 200, 320, 450])
         w = gen.rand_walk(rng, g, v, n)
         if kind == "random" or len(w) < max(n, 1):
             s = gen.rand_dna(rng, max(n, k))
@@ -690,6 +694,12 @@ def C10(ctx):
         elif kind == "last-window":
             p = len(w) - 1 - rng.randrange(min(k, len(w)))
             s = gen.apply_edit(w, gen.rand_edit(rng, w, p))
+        elif kind == "dense":
+            # many separated detections: the candidate product becomes astronomically large
+            s, p, gap = w, len(w) - 2, k + 2 + rng.randrange(3)
+            while p > k:
+                s = gen.apply_edit(s, gen.rand_edit(rng, s, p, "S"))
+                p -= gap
         else:
             s = w
             for _ in range(rng.choice([1, 2, 4, 8])):
@@ -698,6 +708,8 @@ def C10(ctx):
         if len(s) < k:
             continue
         indel, heap = rng.randrange(2), rng.choice([0, 10, 1000, 5000])
+        if kind == "dense":
+            indel = 1 if rng.random() < 0.8 else 0
         chk = rng.choice(["None", "None", "ACG"])
         budget = 4 * len(s) + 80 * k * (len(s) + k) + 50
         proxy = Counting(np.array(g.rows(), dtype=int), budget)
